@@ -81,6 +81,7 @@ Record PreEv (ts0 : list task) (later : nat -> Prop) (w : world) (t m : N) (spaw
   pe_spawn_nd : NoDup spawn;
   pe_spawn : forall k, In k spawn -> exists tk, nth_error (w_tasks w) k = Some tk /\ unspawned tk /\ t_mod tk = m /\ t_start tk = t;
   pe_spawn_msg : forall k e, In k spawn -> In e (spend (w_fes w)) -> epay e <> msg_of k;
+  pe_later_spawn : forall k, later k -> ~ In k spawn;
   pe_msgs : Msgs (w_tasks w) (spend (w_fes w)) (fun k => later k \/ In k spawn) }.
 
 Section Event.
@@ -212,3 +213,143 @@ Section Event.
     - unfold w1. rewrite drv_of_set_same. exact ev_tie1.
   Qed.
 End Event.
+
+Lemma deactivate_out dr :
+  pending (fst (deactivate true dr)) = prune (pending dr) /\
+  scheduled (fst (deactivate true dr)) = scheduled dr ++ match snd (deactivate true dr) with Some x => [x] | None => [] end /\
+  (forall x, snd (deactivate true dr) = Some x -> next_wakeup (fst (deactivate true dr)) = Some x).
+Proof.
+  unfold deactivate, q_next. destruct (front_time (prune (pending dr))) as [d0|]; cbn [fst snd].
+  - destruct (earlier d0 (next_wakeup dr)); cbn [fst snd pending scheduled next_wakeup].
+    + repeat split. intros x H; injection H as <-; reflexivity.
+    + rewrite app_nil_r. repeat split. intros x H; discriminate.
+  - cbn [pending scheduled]. rewrite app_nil_r. repeat split. intros x H; discriminate.
+Qed.
+
+Lemma mod_other m m' : m < 2 -> m' < 2 -> m' <> m -> (m' =? 0) <> (m =? 0).
+Proof. intros H1 H2 H3 E. destruct (m' =? 0) eqn:A, (m =? 0) eqn:B; try discriminate; lia. Qed.
+
+Lemma drv_of_world f n d0 d1 ts nid own mail sn m :
+  drv_of {| w_fes := f; w_now := n; w_d0 := d0; w_d1 := d1; w_tasks := ts; w_nid := nid; w_owner := own; w_mail := mail; w_snaps := sn |} m
+  = if m =? 0 then d0 else d1.
+Proof. reflexivity. Qed.
+
+(* ---- one event re-establishes the boundary invariant ---- *)
+Theorem module_event_winv ts0 later w t m spawn fire :
+  PreEv ts0 later w t m spawn fire -> WInv ts0 later (module_event true t m spawn fire w).
+Proof.
+  intros HP.
+  pose proof (ev_minv1 ts0 later w t m spawn fire HP) as Hm1.
+  pose proof (ev_sched0 ts0 later w t m spawn fire HP) as Hs0.
+  pose proof (ev_q0_runnable ts0 later w t m spawn fire HP) as Hq0run.
+  pose proof (ev_q0_woken ts0 later w t m spawn fire HP) as Hq0wk.
+  unfold module_event.
+  set (dr0 := if fire then sched_fire t (drv_of w m) else drv_of w m) in *.
+  pose proof (activate_sched t dr0) as Hsa.
+  destruct (activate t dr0) as [wk d1]. cbn [fst snd] in *.
+  set (q0 := dedup (flat_map (owner_of (w_owner w)) (flat_map snd wk) ++ spawn)) in *.
+  set (w1 := set_drv w m d1) in *.
+  assert (Hlen : (length q0 <= queue_fuel w1 q0)%nat) by (unfold queue_fuel; lia).
+  destruct (run_queue_frag ts0 t m (queue_fuel w1 q0) q0 w1 Hlen Hm1) as (Hm2 & F1 & F2 & F3 & F4 & F5 & F6 & F7).
+  destruct (run_queue_drv true (queue_fuel w1 q0) t m q0 w1) as [Hacts _].
+  set (w2 := run_queue true (queue_fuel w1 q0) t m q0 w1) in *.
+  unfold w1 in Hacts at 1. rewrite drv_of_set_same in Hacts.
+  pose proof (acts_sched _ _ _ Hacts) as Hs2.
+  destruct (deactivate_out (drv_of w2 m)) as (Dp & Ds & Dn).
+  pose proof (deactivate_inv t (drv_of w2 m) (mi_mid _ _ _ _ _ Hm2)) as Hinv3.
+  destruct (deactivate true (drv_of w2 m)) as [dr3 wk']. cbn [fst snd] in *.
+  (* unchanged parts of the world *)
+  assert (W1 : w_fes w1 = w_fes w /\ w_now w1 = w_now w /\ w_tasks w1 = w_tasks w /\
+               forall m', (m' =? 0) <> (m =? 0) -> drv_of w1 m' = drv_of w m').
+  { unfold w1. repeat split; try (unfold set_drv; destruct (m =? 0); reflexivity). intros m' Hne. apply drv_of_set_other. exact Hne. }
+  destruct W1 as (W1a & W1b & W1c & W1d).
+  pose proof (pe_m _ _ _ _ _ _ _ HP) as Hm.
+  set (w3 := set_drv w2 m dr3).
+  assert (W3 : w_fes w3 = w_fes w /\ w_tasks w3 = w_tasks w2 /\ w_nid w3 = w_nid w2 /\ w_owner w3 = w_owner w2 /\
+               w_mail w3 = w_mail w2 /\ drv_of w3 m = dr3 /\ forall m', (m' =? 0) <> (m =? 0) -> drv_of w3 m' = drv_of w m').
+  { unfold w3. split; [rewrite <- W1a, <- F1; unfold set_drv; destruct (m =? 0); reflexivity|].
+    repeat split; try (unfold set_drv; destruct (m =? 0); reflexivity); [apply drv_of_set_same|].
+    intros m' Hne. rewrite (drv_of_set_other _ _ _ _ Hne), (F3 m' Hne). exact (W1d m' Hne). }
+  destruct W3 as (W3a & W3b & W3c & W3d & W3e & W3f & W3g).
+  (* the new event set *)
+  set (fes' := match wk' with Some x => fst (fst (sp_add (w_fes w3) x m)) | None => w_fes w3 end).
+  assert (Hfes : SI fes' /\ s_tcur fes' = t /\
+                 Permutation (spend fes') (match wk' with Some x => [{| etime := x; eid := s_next (w_fes w); epay := m |}] | None => [] end ++ spend (w_fes w))).
+  { unfold fes'. rewrite W3a. destruct wk' as [x|].
+    - assert (Hx : t < x). { destruct Hinv3 as [Hmid3 _]. exact (proj1 (mid_nw _ _ Hmid3 x (Dn x eq_refl))). }
+      destruct (add_perm (w_fes w) x m) as [P1 P2]; [rewrite (pe_tcur _ _ _ _ _ _ _ HP); lia|].
+      split; [apply SI_add; exact (pe_si _ _ _ _ _ _ _ HP)|]. split; [rewrite P2; exact (pe_tcur _ _ _ _ _ _ _ HP)|exact P1].
+    - split; [exact (pe_si _ _ _ _ _ _ _ HP)|]. split; [exact (pe_tcur _ _ _ _ _ _ _ HP)|apply Permutation_refl]. }
+  destruct Hfes as (Hsi' & Htc' & Hperm').
+  (* tasks that were polled belong to module m *)
+  assert (Hq0mod : forall k tk, In k q0 -> nth_error (w_tasks w2) k = Some tk -> t_mod tk = m).
+  { intros k tk Hin Hk. destruct (Hq0run k Hin) as (tkp & Hkp & Hmp & _).
+    pose proof (mi_base _ _ _ _ _ Hm2) as B2. pose proof (pe_base _ _ _ _ _ _ _ HP) as B0.
+    destruct (Forall2_nth _ _ _ _ _ (b_states _ _ _ _ B2) Hk) as (tk0 & Hk0 & Hst2).
+    destruct (Forall2_nth _ _ _ _ _ (b_states _ _ _ _ B0) Hkp) as (tk0' & Hk0' & Hst0).
+    rewrite Hk0 in Hk0'. injection Hk0' as <-.
+    assert (Hi : init_ok tk0). { pose proof (b_init _ _ _ _ B0) as Ha. rewrite Forall_forall in Ha. apply Ha. eapply nth_error_In; exact Hk0. }
+    destruct (tstate_cases _ _ Hst2 Hi) as (_ & E2 & _). destruct (tstate_cases _ _ Hst0 Hi) as (_ & E0 & _). congruence. }
+  constructor; cbn [w_fes w_now w_mail w_tasks w_owner w_nid].
+  - exact Hsi'.
+  - exact Htc'.
+  - rewrite W3e. exact (mi_mail _ _ _ _ _ Hm2).
+  - rewrite W3b, W3c, W3d. exact (mi_base _ _ _ _ _ Hm2).
+  - intros m' Hm'. rewrite drv_of_world. change (if m' =? 0 then w_d0 w3 else w_d1 w3) with (drv_of w3 m').
+    rewrite W3b, W3c, W3d.
+    destruct (N.eq_dec m' m) as [->|Hne].
+    + rewrite W3f. exists t. split; [lia|]. split; [exact Hinv3|]. split.
+      * eapply Permutation_trans; [apply wakes_perm; exact Hperm'|]. rewrite Ds, Hs2, Hsa.
+        destruct wk' as [x|]; cbn [app]; [|rewrite app_nil_r; exact Hs0].
+        rewrite wakes_cons. cbn [epay etime]. rewrite N.eqb_refl.
+        eapply Permutation_trans; [apply perm_skip; exact Hs0|apply Permutation_cons_append].
+      * destruct (mi_tie _ _ _ _ _ Hm2) as [He Ht]. pose proof (mid_sorted _ _ (mi_mid _ _ _ _ _ Hm2)) as Hsrt.
+        constructor.
+        -- intros k tk s Hk Hbl Hmm Hq. rewrite Dp. pose proof (He k tk s Hk Hbl Hmm Hq) as Hold.
+           rewrite ents_at_prune_keep; [exact Hold|exact Hsrt|]. intros E; rewrite E in Hold; contradiction.
+        -- intros d id Hin. rewrite Dp in Hin. exact (Ht d id (ents_at_prune_in _ _ _ Hsrt Hin)).
+    + pose proof (mod_other m m' Hm Hm' Hne) as Hoth. rewrite (W3g m' Hoth).
+      destruct (pe_drv _ _ _ _ _ _ _ HP m' Hm') as (l & Hl & Hinv & Hperm & [He Ht]).
+      exists l. split; [pose proof (pe_now _ _ _ _ _ _ _ HP); lia|]. split; [exact Hinv|]. split.
+      * eapply Permutation_trans; [apply wakes_perm; exact Hperm'|].
+        replace (fire && (m' =? m)) with false in Hperm by (destruct fire; cbn [andb]; [lia|reflexivity]). cbn [app] in Hperm.
+        destruct wk' as [x|]; cbn [app]; [|exact Hperm].
+        rewrite wakes_cons. cbn [epay]. replace (m =? m') with false by lia. exact Hperm.
+      * constructor.
+        -- intros k tk s Hk Hbl Hmm Hq.
+           assert (Hnq : ~ In k q0) by (intros Hin; pose proof (Hq0mod k tk Hin Hk); congruence).
+           rewrite (F4 k Hnq), W1c in Hk. exact (He k tk s Hk Hbl Hmm Hq).
+        -- intros d id Hin. destruct (Ht d id Hin) as (k & tk & s & Hk & Hbl & Hmm & Hq & E1 & E2).
+           assert (Hnq : ~ In k q0).
+           { intros Hin'. destruct (Hq0run k Hin') as (tkp & Hkp & Hmp & _). rewrite Hk in Hkp. injection Hkp as <-. congruence. }
+           exists k, tk, s. rewrite (F4 k Hnq), W1c. repeat split; assumption.
+  - (* the messages *)
+    destruct (pe_msgs _ _ _ _ _ _ _ HP) as [Mt Mn Ma Ml]. rewrite W3b.
+    assert (Hnewpay : forall e, In e (match wk' with Some x => [{| etime := x; eid := s_next (w_fes w); epay := m |}] | None => [] end) -> epay e < 2).
+    { intros e He. destruct wk'; [destruct He as [<-|[]]; exact Hm|contradiction]. }
+    assert (Hin' : forall e, In e (spend fes') -> 2 <= epay e -> In e (spend (w_fes w))).
+    { intros e He Hp. pose proof (Permutation_in _ Hperm' He) as H. apply in_app_or in H. destruct H as [H|H]; [|exact H].
+      pose proof (Hnewpay e H). lia. }
+    assert (Hstill : forall k tk, nth_error (w_tasks w) k = Some tk -> unspawned tk -> ~ In k spawn -> ~ In k q0).
+    { intros k tk Hk Hun Hns Hin. unfold q0 in Hin. rewrite dedup_in in Hin. apply in_app_or in Hin. destruct Hin as [Hin|Hin]; [|exact (Hns Hin)].
+      destruct (Hq0wk k Hin) as (tk' & s & H1 & H2 & _). rewrite Hk in H1. injection H1 as <-.
+      destruct Hun as [Hc _]. rewrite (blocked_sleep_cur _ _ H2) in Hc. discriminate. }
+    constructor.
+    + intros e He Hp. destruct (Mt e (Hin' e He Hp) Hp) as (k & tk & E1 & Hk & Hun & E2 & E3).
+      assert (Hns : ~ In k spawn).
+      { intros Hs. exact (pe_spawn_msg _ _ _ _ _ _ _ HP k e Hs (Hin' e He Hp) E1). }
+      exists k, tk. rewrite (F4 k (Hstill k tk Hk Hun Hns)), W1c. split; [exact E1|split; [exact Hk|split; [exact Hun|split; [exact E2|exact E3]]]].
+    + eapply Permutation_NoDup; [apply Permutation_sym, perm_filter, Permutation_map; exact Hperm'|].
+      rewrite map_app, filter_app.
+      replace (filter (fun p => 2 <=? p) (map epay (match wk' with Some x => [{| etime := x; eid := s_next (w_fes w); epay := m |}] | None => [] end))) with (@nil N).
+      * exact Mn.
+      * destruct wk'; cbn [map filter epay]; [replace (2 <=? m) with false by lia|]; reflexivity.
+    + intros k tk Hk Hun.
+      destruct (in_dec Nat.eq_dec k q0) as [Hin|Hnq]; [exfalso; exact (F7 k tk Hin Hk Hun)|].
+      rewrite (F4 k Hnq), W1c in Hk. destruct (Ma k tk Hk Hun) as [[Hl|Hs]|(e & He & Ep)].
+      * left; exact Hl.
+      * exfalso. apply Hnq. unfold q0. rewrite dedup_in. apply in_or_app. right; exact Hs.
+      * right. exists e. split; [|exact Ep]. eapply Permutation_in; [apply Permutation_sym; exact Hperm'|]. apply in_or_app. right; exact He.
+    + intros k Hl. destruct (Ml k (or_introl Hl)) as (tk & Hk & Hun). exists tk. split; [|exact Hun].
+      rewrite (F4 k (Hstill k tk Hk Hun (pe_later_spawn _ _ _ _ _ _ _ HP k Hl))), W1c. exact Hk.
+Qed.
